@@ -359,6 +359,8 @@ class Interp:
             if is_sym(x):
                 return sym.b_or(*[self.eq(e, x) for e in container])
             return x in container
+        if hasattr(container, "fvc_contains"):
+            return container.fvc_contains(self, x)
         if isinstance(container, str):
             if isinstance(x, str):
                 return x in container
